@@ -932,6 +932,8 @@ val sx_of_result : cell res option -> sx
 
 val run_multi : sx -> sx
 
+val run_conc : sx -> sx
+
 val bits_cmp : bits -> bits -> comparison
 
 val bits_ltb : bits -> bits -> bool
@@ -2463,7 +2465,7 @@ val run_csend : sx -> sx
 
 val group_by_sender : nat -> (n list * n list) list -> sx list
 
-val run_conc : sx -> sx
+val run_conc0 : sx -> sx
 
 val run_stress : sx -> sx
 
@@ -2690,6 +2692,8 @@ val with_root0 :
   sx -> (oracle -> node list -> nat -> cell -> imm res list -> sx) -> sx
 
 val run_msg0 : sx -> sx
+
+val run_conc1 : sx -> sx
 
 val run_lib : sx -> sx
 
@@ -3059,7 +3063,7 @@ val run_ma_json_any : sx -> sx
 
 val run_ma_unjson : sx -> sx
 
-val run_conc0 : sx -> sx
+val run_conc2 : sx -> sx
 
 type str = n list
 
@@ -4699,6 +4703,6 @@ val dags_of_sx : sx list -> node list list option
 
 val conc_sx : node list -> (bytes res * bytes res) -> sx
 
-val run_conc1 : sx -> sx
+val run_conc3 : sx -> sx
 
 val run : string -> sx -> sx
